@@ -35,6 +35,9 @@ pub enum Kind {
     RemoteClose,
     /// client only: the last SendRequest is dropped -> H3_NO_ERROR
     DropSender,
+    /// the transport reports a connection timeout on a read of THIS stream only: nothing but h3's own wake-up
+    /// tells the driver
+    StreamTimeout,
 }
 
 #[derive(Clone, Debug)]
@@ -120,7 +123,7 @@ fn poison(kind: Kind) -> (Vec<u8>, bool) {
         Kind::FrameUnexpected => (rf::frame(rf::SETTINGS, &[]), false),
         Kind::FrameError => (vec![0x01, 0x05, 0x00], true),
         Kind::Qpack => (rf::frame(rf::HEADERS, &[0xff, 0xff]), true),
-        Kind::RemoteClose | Kind::DropSender => (vec![], false),
+        Kind::RemoteClose | Kind::DropSender | Kind::StreamTimeout => (vec![], false),
     }
 }
 
@@ -146,6 +149,14 @@ async fn stream_action(s: &mut AnyStream, kind: Kind, net: &Net, me: Endpoint) -
     if kind == Kind::RemoteClose {
         let peer = if me == Endpoint::Server { CLIENT } else { SERVER };
         net.raw_close(peer, REMOTE_CODE);
+    }
+    if kind == Kind::StreamTimeout {
+        let side = if me == Endpoint::Server { SERVER } else { CLIENT };
+        let id = match s {
+            AnyStream::Srv(s) => s.id().into_inner(),
+            AnyStream::Cli(s) => s.id().into_inner(),
+        };
+        net.raw_stream_read_conn_err(side, id, simnet::ConnErr::Timeout);
     }
     macro_rules! go {
         ($s:expr) => {{
@@ -453,6 +464,7 @@ fn kind_from(s: &str) -> Kind {
         "FrameError" => Kind::FrameError,
         "Qpack" => Kind::Qpack,
         "RemoteClose" => Kind::RemoteClose,
+        "StreamTimeout" => Kind::StreamTimeout,
         _ => Kind::DropSender,
     }
 }
@@ -460,7 +472,7 @@ fn kind_from(s: &str) -> Kind {
 pub fn cases(thorough: bool) -> Vec<Case> {
     let mut out = Vec::new();
     for me in [Endpoint::Server, Endpoint::Client] {
-        let mut kinds = vec![Kind::FrameUnexpected, Kind::FrameError, Kind::Qpack, Kind::RemoteClose];
+        let mut kinds = vec![Kind::FrameUnexpected, Kind::FrameError, Kind::Qpack, Kind::RemoteClose, Kind::StreamTimeout];
         if me == Endpoint::Client {
             kinds.push(Kind::DropSender);
         }
@@ -495,7 +507,7 @@ pub fn run(args: &Args) -> i32 {
     let (b2, b3) = if thorough { (usize::MAX, 5) } else { (5, 3) };
     let b2s = if b2 == usize::MAX { "unbounded".to_string() } else { b2.to_string() };
     rep.rule = format!(
-        "actors on real OS threads under a baton scheduler: one driver thread (server: accept(); client: poll_close(); parks while pending, woken through h3's AtomicWaker) and 1..3 stream threads, each performing the API calls that raise one connection error (SETTINGS on a request stream -> H3_FRAME_UNEXPECTED; frame cut off by FIN -> H3_FRAME_ERROR; undecodable trailers -> QPACK_DECOMPRESSION_FAILED; peer application close 0x1234 surfacing on a read; client: last SendRequest dropped -> H3_NO_ERROR), every subset of kinds, with and without an error the driver detects itself (peer control stream finished). Pre-emption points = every ConnectionState accessor (get_conn_error, set_conn_error, waker, set_closing, is_closing, settings, set_settings) via the verif-hooks callback. ALL interleavings for 2 threads; pre-emption bound {b2s} for 3 threads and {b3} for 4. After each run: later calls (recv_data, send_data, finish) on every handle, the driver is called three times. Oracle: one distinct connection error over all reports; close() exactly once with its code iff locally detected; driver never parked forever. states = distinct (schedule trace, observation) fingerprints; non-trivial = executions with at least one pre-emption."
+        "actors on real OS threads under a baton scheduler: one driver thread (server: accept(); client: poll_close(); parks while pending, woken through h3's AtomicWaker) and 1..3 stream threads, each performing the API calls that raise one connection error (SETTINGS on a request stream -> H3_FRAME_UNEXPECTED; frame cut off by FIN -> H3_FRAME_ERROR; undecodable trailers -> QPACK_DECOMPRESSION_FAILED; peer application close 0x1234 surfacing on a read; a connection timeout that the transport reports on a read of this stream only; client: last SendRequest dropped -> H3_NO_ERROR), every subset of kinds, with and without an error the driver detects itself (peer control stream finished). Pre-emption points = every ConnectionState accessor (get_conn_error, set_conn_error, waker, set_closing, is_closing, settings, set_settings) via the verif-hooks callback. ALL interleavings for 2 threads; pre-emption bound {b2s} for 3 threads and {b3} for 4. After each run: later calls (recv_data, send_data, finish) on every handle, the driver is called three times. Oracle: one distinct connection error over all reports; close() exactly once with its code iff locally detected; driver never parked forever. states = distinct (schedule trace, observation) fingerprints; non-trivial = executions with at least one pre-emption."
     );
     rep.assumptions = vec![
         "OnceLock and AtomicWaker::{register,wake} are atomic operations (their documented contracts); interleavings are sequentially consistent (Relaxed vs SeqCst on the closing flag is not modelled)".into(),
